@@ -201,6 +201,15 @@ class VecEval:
                     raise Unsupported('slice store shape')
                 for k, x in zip(pos, vals):
                     base[k] = x
+            elif isinstance(i, tuple) and len(i) == 2 and isinstance(i[0], slice) and isinstance(i[1], slice) and (not base or isinstance(base[0], list)):
+                rows_ = range(*i[0].indices(len(base)))
+                for r_ in rows_:
+                    cols_ = range(*i[1].indices(len(base[r_])))
+                    vals_ = list(v) if isinstance(v, (list, tuple)) else [v] * len(cols_)
+                    if vals_ and isinstance(vals_[0], list):
+                        raise Unsupported('2-d block store')
+                    for c_, x in zip(cols_, vals_):
+                        base[r_][c_] = x
             elif isinstance(i, tuple) and len(i) == 2 and isinstance(i[0], int) and isinstance(i[1], int) and not isinstance(i[0], bool) and isinstance(base[i[0]], list):
                 base[i[0]][i[1]] = v
             elif isinstance(i, tuple) and len(i) == 2 and isinstance(i[0], slice) and i[0] == slice(None) and isinstance(i[1], int) and (not base or isinstance(base[0], list)):
@@ -619,6 +628,13 @@ class VecEval:
                 return [v_] * n_
             if isinstance(n_, tuple) and len(n_) == 2 and all(isinstance(x, int) for x in n_):
                 return [[v_] * n_[1] for _ in range(n_[0])]
+        if fn in ('np.empty', 'numpy.empty') and e.args:
+            n_ = self.expr(e.args[0])
+            poison = float('nan')        # uninitialised memory: any value that reaches a result unchanged shows up as a wrong (NaN) entry
+            if isinstance(n_, tuple) and len(n_) == 2 and all(isinstance(x, int) for x in n_):
+                return [[poison] * n_[1] for _ in range(n_[0])]
+            if isinstance(n_, int):
+                return [poison] * n_
         if fn in ('np.zeros', 'numpy.zeros', 'np.ones', 'numpy.ones') and e.args:
             n_ = self.expr(e.args[0])
             if isinstance(n_, tuple) and len(n_) == 2 and all(isinstance(x, int) for x in n_):
